@@ -5,5 +5,6 @@ CONSTANTS
   LastChanceAny = {"m"}
   WalkSorted = TRUE
   AssumeUserRange = TRUE
+  QueryTypes = {"lookup"}
 INVARIANTS NeverAnotherOverload
 CHECK_DEADLOCK FALSE
